@@ -121,6 +121,13 @@ UN = {
     'in_list': lambda v: v in [7, 'ab', None], 'dictkey': lambda v: {v: 1}[v], 'pedal_len': None,
 }
 
+# format specifications of every shape (fill/align, sign flags incl. the blank one, grouping, precision, types, and
+# specifications the value rejects: trailing blank, tab)
+for _spec in (' d', ' .2f', ' ', '+d', 'd ', '5 ', '\t', '08.3f', ',', '_', '>8', ' >8', '^9', '*<6', 's', 'x', '#b', '%', 'e', '05',
+              '.3', 'c', 'n', '=+6'):
+    UN['format:%r' % _spec] = (lambda v, _s=_spec: format(v, _s))
+UN['fstring_blank_sign'] = lambda v: f"{v: d}|{v: .1f}"
+
 
 def _setup():
     global SandboxResult, unwrap_value, sb, cmds, pedal_len
